@@ -156,7 +156,7 @@ Proof.
       destruct (IH es' env) as [H1 H2]; [intros e He; apply Hel; right; exact He| |exact Hwr|exact Hs2|].
       { intros e2 k tl He Hk. apply Hrd; [right; exact He|right; exact Hk]. }
       split; [|reflexivity].
-      cbn [pump_kids reads_kids]. exists (pump_doc m (IElem q' ds ats ks) (tail_of r)), (pump_kids (pump_doc m) r).
+      cbn [pump_kids reads_kids_o]. exists (pump_doc m (IElem q' ds ats ks) (tail_of r)), (pump_kids (pump_doc m) r).
       split; [reflexivity|]. split; [|exact H1].
       apply Hrd; [left; reflexivity|left; reflexivity|exact Hs1|exact H2|exact Hwk].
 Qed.
@@ -179,12 +179,13 @@ Proof.
   apply qname_eqb_true in Hq. subst q'.
   cbn [plain_tree] in Hp. apply andb_true_iff in Hp as [Hp Hpk]. apply andb_true_iff in Hp as [Hpa Hnd].
   cbn [wf_doc] in Hwf. apply andb_true_iff in Hwf as [Hwa Hwk].
-  rewrite pump_doc_elem. cbn [reads].
+  rewrite pump_doc_elem. cbn [reads_o].
   exists (map (fun a => (clark_of (fst a), snd a)) tats), (rev ds ++ m), (lead_text tks), tail,
          (pump_kids (pump_doc (rev ds ++ m)) tks).
   split; [reflexivity|]. split; [|split; [exact Htl|]].
   - (* attributes *)
-    split; [|split].
+    split; [|split; [|split]].
+    4:{ discriminate. }
     + rewrite map_map. cbn [fst]. apply nodup_by_str. exact Hwa.
     + rewrite map_length. apply Nat.eqb_eq in Hlen. symmetry. exact Hlen.
     + intros ea Hea. rewrite forallb_forall in Hats. specialize (Hats ea Hea).
